@@ -9,7 +9,7 @@
            serving, SyncChunks, loss of the index files, RANGE queries; after every step the
            per-chunk hull and index records, the rebuilder queue, and for queries the delivered
            events and the selector's windows. *)
-From LR Require Export lib.Base model.TmTree model.CIndex model.Selector.
+From LR Require Export lib.Base model.TmTree model.TmTreeML model.CIndex model.Selector.
 Open Scope Z_scope.
 
 Definition pair_rec_eqb (a b : rec * rec) : bool := rec_eqb (fst a) (fst b) && rec_eqb (snd a) (snd b).
@@ -137,22 +137,38 @@ Fixpoint e_check (st : pstate) (l : list (eop * eobs)) : bool :=
 
 Inductive case :=
 | KTree (adds : list (rec * rec)) (qs : list Z) (trav : list (rec * rec)) (ge lt : list answer)
+| KTreeML (adds : list (rec * rec)) (qs : list Z) (trav : list (rec * rec)) (ge lt : list answer)
 | KIw (tss : list Z) (mn mx : Z)
 | KCi (ops : list ciop) (obs : list ciobs)
-| KE2E (hist : list (eop * eobs)).
+| KE2E (hist : list (eop * eobs))
+| KAdv (mn mx cnt pos : Z) (np : Z) (ok : bool).   (* chkStatus.checkPosOrAdvance *)
+
+Definition ml_check (adds : list (rec * rec)) (qs : list Z) (trav : list (rec * rec)) (ge lt : list answer) : bool :=
+  match tree_of adds with
+  | None => match adds with [] => true | _ => false end
+  | Some t =>
+      list_eqb pair_rec_eqb (tree_traversal t) trav
+      && list_eqb answer_eqb (map (tree_gr_eq t) qs) ge
+      && list_eqb answer_eqb (map (tree_less t) qs) lt
+  end.
 
 Definition check (c : case) : bool :=
   match c with
   | KTree adds qs trav ge lt =>
+      (* within the validity of the flat list (<= 41 records, or append-only): the flat model AND the tree model *)
       let rs := fold_left (fun rs a => flat_add rs (fst a) (snd a)) adds [] in
       list_eqb pair_rec_eqb (flat_traversal rs) trav
       && list_eqb answer_eqb (map (flat_gr_eq rs) qs) ge
       && list_eqb answer_eqb (map (flat_less rs) qs) lt
+      && ml_check adds qs trav ge lt
+  | KTreeML adds qs trav ge lt => ml_check adds qs trav ge lt
   | KIw tss mn mx =>
       let s := fold_left (iw_get (fix_zero impl_variant)) tss iw_init in
       (iw_min s =? mn) && (iw_max s =? mx)
   | KCi ops obs => list_eqb ciobs_eqb (ci_run [] ops) obs
   | KE2E hist => e_check p_init hist
+  | KAdv mn mx cnt pos np ok =>
+      let r := check_pos_or_advance (mkst mn mx cnt) pos in (fst r =? np) && Bool.eqb (snd r) ok
   end.
 
 Definition mismatches (l : list case) : list nat := mismatches_of check l.
